@@ -309,6 +309,12 @@ def replay_power_hang(run, known, timeout=8):
 def main(run):
     warnings.simplefilter("ignore")
     quick = run.tier == "quick"
+    import time
+    ph, t0 = run.extra.setdefault("phase_s", {}), [time.time()]
+
+    def mark(name):
+        ph[name] = round(time.time() - t0[0], 1)
+        t0[0] = time.time()
     # hand-written theorems
     for rel in HAND_FILES[1:]:
         ap = os.path.join(vlib.COQ, rel)
@@ -327,12 +333,14 @@ def main(run):
     if bad_words:
         run.violation({"broken": "forbidden vernacular in hand-written files", "where": bad_words}, False)
 
+    mark("hand_files")
     # T1
     try:
         t1_problems = t1_rules(run)
     except (L.TieBroken, SyntaxError, KeyError, AttributeError) as ex:
         t1_problems = [f"T1 reader failed: {ex!r}"]
 
+    mark("t1")
     # T3
     n = 300 if quick else 5000
     cases = build_cases(run, "complex", n, run.seed) + build_cases(run, "real", n, run.seed)
@@ -343,8 +351,10 @@ def main(run):
             [c for c in cases if c.mode == "real"][:3]:
         run.sample({"case": c.name, "mode": c.mode, "input": str(c.inp)[:160],
                     "output": (str(c.out)[:200] if c.out is not None else "REJECTED"), "nodetype": c.ty})
+    mark("generate+run")
     bad = check_cases(run, cases, 150 if quick else 400)
 
+    mark("t3_coq")
     # property oracle on every accepted case (complex-valued numeric evaluation)
     known = vlib.load_known_findings("C23")
     kn = next((k for k in known if k.get("id") == "partial-mathfn-typed-real"), None)
@@ -354,13 +364,14 @@ def main(run):
             continue
         probs = (L.oracle_complex if c.mode == "complex" else L.oracle_real)(c.inp, c.out, run.seed + 17, 4 if quick else 6)
         for p in probs:
-            if c.mode == "complex" and p.get("known_class") and kn is not None and c not in bad:
+            if c.mode == "complex" and p.get("known_class") and kn is not None:
                 known_hits += 1
             else:
                 oracle_hits.append((c, p))
             break
     run.extra["oracle"] = {"known_class_hits": known_hits, "other_hits": len(oracle_hits)}
 
+    mark("oracle")
     reported = set()
     for c, p in oracle_hits:
         if c.name in reported:
@@ -405,6 +416,7 @@ def main(run):
     elif t1_problems:
         run.extra["t1_problems"] = t1_problems
 
+    mark("search")
     # T2: den out = den inp for real data, a sample of accepted cases
     t2 = []
     for c in cases:
@@ -425,6 +437,7 @@ def main(run):
                        "input": str(case.inp) if case else None, "output": str(case.out) if case else None,
                        "what": "den out = den inp (re, conj = identity) not provable"}, False)
 
+    mark("t2_coq")
     # known finding
     if kn is not None:
         if not replay_known(run, kn):
@@ -433,6 +446,7 @@ def main(run):
     if kh is not None and not replay_power_hang(run, kh):
         run.extra["known_not_reproduced_2"] = kh["id"]
 
+    mark("known_replay")
     run.trusted.update([
         "Coq 8.16.1 kernel (coqc); vm_compute for the correspondence cases",
         "py/ufl2coq.py serializer (node-for-node, fail-closed)",
